@@ -128,10 +128,15 @@ def run_kind(ctx, kind, loop):
                     b = None
                 else:
                     _calls.append(('ok', dict(b.arguments)))
+                exc = RAISE[0]
                 if _co:
                     async def co():
+                        if exc is not None:
+                            raise exc
                         return _res
                     return co()
+                if exc is not None:
+                    raise exc
                 return _res
             setattr(target, helper, recorder)
 
@@ -221,6 +226,11 @@ def concurrent_helpers(ctx, kind, target, nsobj, reg):
     return True
 
 
+# what the underlying method raises in the calls of kind 'raises': the helper
+# has exactly the effect of the method, so the same exception comes out
+RAISE = [None]
+
+
 def explore_helper(ctx, kind, helper, nsobj, reg, real_params, calls, result,
                    loop):
     hsig = inspect.signature(getattr(nsobj, helper))
@@ -240,7 +250,7 @@ def explore_helper(ctx, kind, helper, nsobj, reg, real_params, calls, result,
     for r in range(len(optional) + 1):
         for subset in itertools.combinations(optional, r):
             for form in ('kw', 'pos'):
-                for valkind in ('sentinel', 'falsy', 'container'):
+                for valkind in ('sentinel', 'falsy', 'container', 'raises'):
                     n += 1
                     one_call(ctx, kind, helper, nsobj, reg, hparams,
                              required, subset, form, valkind, calls, result,
@@ -290,13 +300,33 @@ def one_call(ctx, kind, helper, nsobj, reg, hparams, required, subset, form,
     w = {'class': kind, 'helper': helper, 'registered_namespace': reg,
          'args': [repr(a) for a in args],
          'kwargs': {k: repr(v) for k, v in kwargs.items()}, 'form': form}
+    boom = None
+    if valkind == 'raises':
+        import socketio
+        boom = [KeyError('sid-%d' % n), ValueError('sid is not connected'),
+                socketio.exceptions.TimeoutError(),
+                socketio.exceptions.DisconnectedError(),
+                RuntimeError('application')][n % 5]
+    RAISE[0] = boom
     try:
         ret = getattr(nsobj, helper)(*args, **kwargs)
         if inspect.iscoroutine(ret):
             ret = loop.run_until_complete(ret)
     except Exception as e:
-        ctx.violation(None, '%s.%s raised %r' % (kind, helper, e), w)
-        return
+        if boom is None or e is not boom:
+            ctx.violation(None, '%s.%s raised %r%s' % (
+                kind, helper, e, '' if boom is None else
+                ' (the underlying method had raised %r)' % boom), w)
+            return
+        ret = result
+        ctx.count('exceptions_passed_through')
+    else:
+        if boom is not None:
+            ctx.violation(None, '%s.%s returned %r although the underlying '
+                          'method raised %r' % (kind, helper, ret, boom), w)
+            return
+    finally:
+        RAISE[0] = None
     ctx.count('helper_calls')
     if len(calls) != 1:
         ctx.violation(None, '%s.%s called the underlying method %d times' % (
@@ -352,6 +382,7 @@ def run(ctx):
     ctx.require('helper_calls', 500)
     ctx.require('arguments_compared', 500)
     ctx.require('namespace_checked', 500)
+    ctx.require('exceptions_passed_through', 100)
     loop = asyncio.new_event_loop()
     asyncio.set_event_loop(loop)
     try:
